@@ -45,10 +45,10 @@ def cases(ctx):
     pairs = classes(rng) + [('random', rng.randrange(1, 2 ** 255), rng.randrange(1, N)) for _ in range(ctx.n(1500, 60000))]
     for kind, r, s in pairs:
         ht = rng.choice(TYPES)
-        k = rng.choice([0, 0, 0, 1, 2, 3])      # number of high-R attempts before the good one
+        k = rng.choice([0, 0, 0, 0, 1, 2, 3, 7, 8, 9, 10, 15, 16, 17, 31, 32, 33, 64])      # number of high-R attempts before the good one
         atts = [der(rng.randrange(2 ** 255, N), rng.randrange(1, N)) for _ in range(k)] + [der(r, s)]
         nt = s > N // 2 or k > 0 or min(r.bit_length(), s.bit_length(), (N - s).bit_length()) <= 248
-        ctx.count('norm-' + kind.split('-')[0]); ctx.count(f'norm-retries-{k}')
+        ctx.count('norm-' + kind.split('-')[0]); ctx.count('norm-retries-' + (str(k) if k < 4 else '4..8' if k <= 8 else '9..64'))
         def spec(ans, r=r, s=s, ht=ht, k=k):
             if not ans.startswith('ok '): return ('s:echo normaliser-raised', 'ok 1')
             sig, used = ans[3:].split(' ')
